@@ -130,3 +130,36 @@ Proof.
   split; [split; [vm_compute; reflexivity|] | vm_compute; reflexivity].
   intros k Hk. assert (Hc : k = 0 \/ k = 1 \/ k = 2) by lia. destruct Hc as [-> | [-> | ->]]; rewrite quality_pure_fast; vm_compute; reflexivity.
 Qed.
+
+(* ---------------------------------------------------------------- the single-node clause, one Byzantine validator of four *)
+(* the F4 history until 18Y; then node 0 (v1, best block 18Y) imports 10X and 11X: the import finalizes 4X while the best
+   block stays on Y (higher quality); its own proposal of the store point 19Y (no Accepts test in proposeAndCommit) then
+   finalizes 12Y, which conflicts with 4X: finalized does not move along its own ancestry on ONE honest node. *)
+Definition y19own := bk 19 4 2 1 true 70.
+Definition f17_prefix : list event :=
+  [ P 0%nat c1; I 1%nat c1; I 2%nat c1; P 1%nat c2; I 0%nat c2; I 2%nat c2; P 2%nat c3; I 0%nat c3; I 1%nat c3;
+    P 0%nat y4; I 1%nat y4; P 1%nat y5;
+    P 2%nat x4; I 0%nat x4; P 0%nat x5; I 2%nat x5; I 2%nat x6; P 2%nat x7; P 2%nat x8;
+    I 0%nat x6; I 0%nat x7; I 0%nat x8; P 0%nat x9;
+    I 1%nat x4; I 1%nat x5; I 1%nat x6; I 1%nat x7; I 1%nat x8; I 1%nat x9; I 1%nat x10; P 1%nat x11;
+    I 0%nat y5; I 0%nat y6; I 0%nat y7; P 0%nat y8;
+    I 2%nat y4; I 2%nat y5; I 2%nat y6; I 2%nat y7; I 2%nat y8; I 2%nat x9; P 2%nat y9;
+    I 0%nat y9; I 0%nat y10; I 0%nat y11; P 0%nat y12;
+    I 2%nat y10; I 2%nat y11; I 2%nat y12; P 2%nat y13;
+    I 0%nat y13; I 0%nat y14; I 0%nat y15; P 0%nat y16;
+    I 2%nat y14; I 2%nat y15; I 2%nat y16; P 2%nat y17;
+    I 0%nat y17; I 0%nat y18; I 0%nat x10; I 0%nat x11 ].
+Definition f17_run : list event := f17_prefix ++ [P 0%nat y19own].
+
+Lemma f17_witness :
+  valid_run_b true cfg4 [4] f4_world [gen] f17_run = true /\
+  (exists nd, nth_error (world_after cfg4 f4_world f17_prefix) 0 = Some nd /\
+              e_fin (n_eng nd) = b_id x4 /\ n_best nd = b_id y18 /\
+              has_block (n_repo nd) (n_best nd) (e_fin (n_eng nd)) = false /\ honest_ok cfg4 nd y19own = true) /\
+  (exists nd', nth_error (world_after cfg4 f4_world f17_run) 0 = Some nd' /\ e_fin (n_eng nd') = b_id y12 /\
+               has_block (n_repo nd') (e_fin (n_eng nd')) (b_id x4) = false) /\
+  conflict (seen_after [gen] f17_run) (b_id x4) (b_id y12) = true.
+Proof.
+  split; [vm_compute; reflexivity|]. split; [eexists; split; [vm_compute; reflexivity | vm_compute; repeat split; reflexivity]|].
+  split; [eexists; split; [vm_compute; reflexivity | vm_compute; split; reflexivity] | vm_compute; reflexivity].
+Qed.
